@@ -493,8 +493,8 @@ def _short(o):
 # ---------------------------------------------------------------------------------------------
 def plan(tier, seed):
     bound2, bound3 = (1, 1) if tier == "quick" else (2, 2)
-    cap = 1500 if tier == "quick" else 40000
-    nsh = 1 if tier == "quick" else 8
+    cap = 1500 if tier == "quick" else 12000
+    nsh = 1 if tier == "quick" else 16
     cases = []
     for h in HARNESSES:
         b = bound3 if h == "H7_three_threads" else bound2
